@@ -5,17 +5,18 @@
   `TimeAgrees`, `timestampIs` (what "agrees with every supplied field" means, read off the calendar
   specification of C01), `DateSufficient` / `TimeSufficient` (the documented combinations),
   `GroupCoherent` / `GroupDeterminate` (year groups).  Helper lemmas: Proofs/ParsedL.lean,
-  Proofs/ParsedDateL.lean, Proofs/ParsedDtL.lean.
+  Proofs/ParsedDateL.lean, Proofs/ParsedDtL.lean, Proofs/ParsedIsoL.lean (on C01's ISO-week theorems),
+  Proofs/ParsedTsL.lean (on C02/C03), Proofs/ParsedZonedL.lean (on C04).
 
   `InType p` says that every field holds a value of its Rust type (`i32`/`u32`/`i64`); it is the
   only restriction on the record — all 2^21 subsets and all values are covered by each statement.
   `VD Y o` = "the o-th day of year Y exists and Y is in the supported range"; `dateOfYo Y o` is its
   packed value (C01).
 -/
-import Chrono.Proofs.ParsedDtL
+import Chrono.Proofs.ParsedZonedL
 
 namespace Chrono.Props.C14
-open Chrono Chrono.M Chrono.Spec Chrono.Spec.Fields Chrono.Proofs Chrono.Proofs.ParsedRes Chrono.Extracted
+open Chrono Chrono.M Chrono.Spec Chrono.Spec.Fields Chrono.Spec.Ts Chrono.Proofs Chrono.Proofs.ParsedRes Chrono.Extracted
 
 attribute [local instance] exceptDecEq
 
@@ -116,36 +117,21 @@ theorem date_no_panic (p : Parsed) (hp : InType p) : ∃ r, Parsed.to_naive_date
   obtain ⟨r, hr, _⟩ := date_main p hp
   exact ⟨r, hr⟩
 
-/-- soundness, every record in which a calendar combination (year with month+day, ordinal, or a
-Sunday/Monday week number with weekday) is present: a successful result is an existing day of the
-supported range and agrees with EVERY supplied date field — full year, century, two-digit year,
-quarter, month, both week numbers, weekday, ordinal, day, and the three ISO-week fields -/
-theorem date_sound (p : Parsed) (hp : InType p) (hc : UsesCalendar p) (d : Date)
+/-- soundness, EVERY record (all 2^21 subsets, whichever combination the resolver uses — calendar,
+ordinal, Sunday/Monday week, or ISO week date): a successful result is an existing day of the
+supported range and agrees with every supplied date field — full year, century, two-digit year,
+quarter, month, both week numbers, weekday, ordinal, day, and the three ISO-week fields.
+(The ISO combination rests on C01's `isoywd_roundtrip`.) -/
+theorem date_sound (p : Parsed) (hp : InType p) (d : Date)
     (h : Parsed.to_naive_date p = .ok (.ok d)) :
     ∃ Y o, VD Y o ∧ d = dateOfYo Y o ∧ DateAgrees p Y o := by
   obtain ⟨r, hr, hok, _⟩ := date_main p hp
   rw [hr] at h
   cases h
   obtain ⟨Y, o, hvd, hd, hag⟩ := hok d rfl
-  exact ⟨Y, o, hvd, hd, hag (Or.inr hc)⟩
+  exact ⟨Y, o, hvd, hd, hag (Or.inl isoCtorSpec_holds)⟩
 
-/-- soundness for ALL records, including those resolved through the ISO combination (ISO year,
-ISO week, weekday).  Missing for the unconditional statement: `IsoCtorSpec`, the round trip
-"`from_isoywd_opt y w wd = d` ⇒ `d.iso_week = (y, w)` and `d.weekday = wd`" of the ISO-week
-constructor, which belongs to C01's ISO-week theorems (Proofs/IsoL.lean, another builder); it is an
-explicit hypothesis here.  Everything else (the resolver's own logic: year groups, verifier
-closures, quarter check) is proved. -/
-theorem date_sound_partial (hiso : IsoCtorSpec) (p : Parsed) (hp : InType p) (d : Date)
-    (h : Parsed.to_naive_date p = .ok (.ok d)) :
-    ∃ Y o, VD Y o ∧ d = dateOfYo Y o ∧ DateAgrees p Y o := by
-  obtain ⟨r, hr, hok, _⟩ := date_main p hp
-  rw [hr] at h
-  cases h
-  obtain ⟨Y, o, hvd, hd, hag⟩ := hok d rfl
-  exact ⟨Y, o, hvd, hd, hag (Or.inl hiso)⟩
-
-/-- the result of the ISO combination is, unconditionally, an existing day of the supported range
-(so `date_sound_partial` lacks only the agreement of the ISO fields themselves) -/
+/-- every successful result is an existing day of the supported range -/
 theorem date_result_valid (p : Parsed) (hp : InType p) (d : Date)
     (h : Parsed.to_naive_date p = .ok (.ok d)) : ∃ Y o, VD Y o ∧ d = dateOfYo Y o := by
   obtain ⟨r, hr, hok, _⟩ := date_main p hp
@@ -156,19 +142,25 @@ theorem date_result_valid (p : Parsed) (hp : InType p) (d : Date)
 
 /-- completeness for dates: fields that all agree with one real day `(Y, o)` of the supported
 range, with each year group determinate (full year, or century + two-digit year, or the two-digit
-year alone with the real year in 1970–2069; the ISO group likewise w.r.t. the day's ISO year) and a
-calendar combination present (year with month+day, ordinal, or Sunday/Monday week number with
-weekday) resolve to exactly that day — whichever combination the resolver happens to pick first.
-Not covered by this theorem (compared with the implementation and checked by the harness oracle
-only): sets whose only sufficient combination is the ISO one (needs the inverse direction of C01's
-ISO-week round trip, `from_isoywd_opt (iso fields of d) = d`). -/
+year alone with the real year in 1970–2069; the ISO group likewise w.r.t. the day's ISO year) and
+one of the documented combinations present (year with month+day, ordinal, Sunday/Monday week
+number with weekday — `UsesCalendar` — or ISO year with ISO week and weekday — `UsesIso`) resolve
+to exactly that day, whichever combination the resolver happens to pick first. -/
 theorem date_complete (p : Parsed) (hp : InType p) (Y : Int) (o : Nat) (hvd : VD Y o)
     (hag : DateAgrees p Y o)
     (hdY : GroupDeterminate p.year p.year_div_100 p.year_mod_100 Y)
     (hdI : ∀ w, (dateOfYo Y o).iso_week = .ok w →
       GroupDeterminate p.isoyear p.isoyear_div_100 p.isoyear_mod_100 (IsoWeek.year w))
-    (hc : UsesCalendar p) :
-    Parsed.to_naive_date p = .ok (.ok (dateOfYo Y o)) := date_complete' p hp Y o hvd hag hdY hdI hc
+    (hc : UsesCalendar p ∨ UsesIso p) :
+    Parsed.to_naive_date p = .ok (.ok (dateOfYo Y o)) := date_complete_full p hp Y o hvd hag hdY hdI hc
+
+/-- non-vacuity for the ISO combination: 2020-W53-5 is 2021-01-01 (ISO year ≠ calendar year) -/
+example : UsesIso { isoyear := some 2020, isoweek := some 53, weekday := some .fri } ∧
+    Parsed.to_naive_date { isoyear := some 2020, isoweek := some 53, weekday := some .fri }
+      = .ok (.ok (dateOfYo 2021 1)) ∧
+    Parsed.to_naive_date { isoyear := some 2020, isoweek := some 53, weekday := some .fri, year := some 2020 }
+      = .ok (.error .impossible) := by
+  refine ⟨⟨Or.inl (by simp), by simp, by simp⟩, by decide +kernel, by decide +kernel⟩
 
 /-- non-vacuity of the hypotheses of `date_complete`: a two-digit year alone (pivot), a week number
 and a weekday describe 1999-12-31 (day 365, a Friday in Sunday-week 52) -/
@@ -279,19 +271,20 @@ theorem datetime_sound_fields (p : Parsed) (hp : InType p) (off : Int)
 /-- completeness for date-times on the field path: date fields as in `date_complete`, time fields
 agreeing with a real time of day and sufficient, and a timestamp field (if supplied) that is the
 timestamp of that local reading at the given offset (or one more for a leap second) ⇒ exactly that
-date-time.  Not covered by a theorem (compared with the implementation and checked by the harness
-oracles only): the fall-back path that reconstructs year, ordinal, hour, minute and second from the
-timestamp when the other fields are insufficient — it needs C02's `from_timestamp` theorems. -/
+date-time.  Not covered by a completeness theorem (soundness and no-panic are: `datetime_sound`;
+completeness is compared with the implementation and checked by the harness oracle only): the
+fall-back path that reconstructs year, ordinal, hour, minute and second from the timestamp when the
+other fields are insufficient. -/
 theorem datetime_complete_fields (p : Parsed) (hp : InType p) (off : Int)
     (hoff : -2147483648 ≤ off ∧ off ≤ 2147483647) (Y : Int) (o : Nat) (t : Time) (hvd : VD Y o)
     (hag : DateAgrees p Y o)
     (hdY : GroupDeterminate p.year p.year_div_100 p.year_mod_100 Y)
     (hdI : ∀ w, (dateOfYo Y o).iso_week = .ok w →
       GroupDeterminate p.isoyear p.isoyear_div_100 p.isoyear_mod_100 (IsoWeek.year w))
-    (hc : UsesCalendar p) (ht : TStrict t) (hta : TimeAgrees p t) (hts : TimeSufficient p)
+    (hc : UsesCalendar p ∨ UsesIso p) (ht : TStrict t) (hta : TimeAgrees p t) (hts : TimeSufficient p)
     (hstamp : timestampIs p.timestamp ⟨dateOfYo Y o, t⟩ off) :
     Parsed.to_naive_datetime_with_offset p off = .ok (.ok ⟨dateOfYo Y o, t⟩) := by
-  have hd := date_complete' p hp Y o hvd hag hdY hdI hc
+  have hd := date_complete_full p hp Y o hvd hag hdY hdI hc
   have htt := time_complete' p t ht hta hts
   obtain ⟨r, hr, _, _, hfin⟩ := datetime_sound_fields p hp off hoff _ t hd htt
   rw [hr, hfin hstamp]
@@ -312,5 +305,98 @@ example :
       hour_div_12 := some 1, hour_mod_12 := some 11, minute := some 59, second := some 60,
       timestamp := some 1483228801 } 0 = .ok (.error .impossible) := by
   decide +kernel
+
+/-- soundness of `to_naive_datetime_with_offset`, EVERY record and every `i32` offset, BOTH paths
+(fields, and the fall-back that reconstructs year, ordinal, hour, minute, second from the timestamp,
+with the second-60 handling): never panics; errors are one of the three documented kinds; a result is
+an existing day and a constructible time of day that agree with every supplied date field and every
+supplied time field, and its own timestamp at the given offset is the supplied timestamp — or one
+less when the result is a leap second.  (Rests on C02's `from_timestamp` and C03's checked
+subtraction theorems; includes the repaired second-60-at-the-minimum case, which is OUT_OF_RANGE.) -/
+theorem datetime_sound (p : Parsed) (hp : InType p) (off : Int)
+    (hoff : -2147483648 ≤ off ∧ off ≤ 2147483647) :
+    ∃ r, Parsed.to_naive_datetime_with_offset p off = .ok r ∧
+      (∀ e, r = .error e → e = .notEnough ∨ e = .impossible ∨ e = .outOfRange) ∧
+      (∀ dt, r = .ok dt → ∃ Y o, VD Y o ∧ dt.date = dateOfYo Y o ∧ DateAgrees p Y o ∧
+        TStrict dt.time ∧ TimeAgreesSupplied p dt.time ∧ timestampIs p.timestamp dt off) :=
+  dt_main p hp off hoff
+
+/-- non-vacuity of the fall-back path: a lone timestamp; a timestamp with second 60 one second after
+a :59 (the leap second is the previous second); finding #7's input — second 60 at the minimum
+timestamp — is OUT_OF_RANGE, not a panic; a timestamp contradicting a supplied minute -/
+example :
+    Parsed.to_naive_datetime_with_offset { timestamp := some 86399 } 0
+      = .ok (.ok ⟨dateOfYo 1970 1, ⟨86399, 0⟩⟩) ∧
+    Parsed.to_naive_datetime_with_offset { timestamp := some 86400, second := some 60 } 0
+      = .ok (.ok ⟨dateOfYo 1970 1, ⟨86399, 1000000000⟩⟩) ∧
+    Parsed.to_naive_datetime_with_offset { timestamp := some (-8334601228800), second := some 60 } 0
+      = .ok (.error .outOfRange) ∧
+    Parsed.to_naive_datetime_with_offset { timestamp := some 86399, minute := some 58 } 0
+      = .ok (.error .impossible) := by
+  decide +kernel
+
+/-- `to_fixed_offset`: the supplied offset iff it is a valid `FixedOffset` (strictly between −24 h
+and +24 h); NOT_ENOUGH iff no offset is supplied; otherwise OUT_OF_RANGE.  Cannot panic. -/
+theorem fixed_offset_sound (p : Parsed) :
+    (∀ o, Parsed.to_fixed_offset p = .ok o ↔ (p.offset = some o ∧ OffValid o)) ∧
+    (Parsed.to_fixed_offset p = .error .notEnough ↔ p.offset = none) ∧
+    (∀ e, Parsed.to_fixed_offset p = .error e → e = .notEnough ∨ e = .outOfRange) :=
+  fixed_offset_spec p
+
+/-- `to_datetime`, every record: never panics; errors by value; NOT_ENOUGH when neither offset nor
+timestamp is supplied; a result is a well-formed zone-aware value whose offset is the supplied
+offset (0 when only a timestamp is supplied) and whose wall clock (`naive_local`) is a naive
+date-time that agrees with every supplied date/time field and with the supplied timestamp at that
+offset (`ZonedOk`).  (Rests on C04's `fromLocal_fails_iff` / `local_of_fromLocal`.) -/
+theorem to_datetime_sound (p : Parsed) (hp : InType p) :
+    ∃ r, Parsed.to_datetime p = .ok r ∧
+      (∀ e, r = .error e → e = .notEnough ∨ e = .impossible ∨ e = .outOfRange) ∧
+      (p.offset = none → p.timestamp = none → r = .error .notEnough) ∧
+      (∀ z, r = .ok z → (p.offset = none → z.off = 0) ∧ ZonedOk p z z.off) :=
+  to_datetime_spec p hp
+
+/-- `to_datetime_with_timezone` for a fixed-offset zone (`FixedOffset`, `Utc` = 0), every record:
+never panics; errors by value; a result carries the zone's offset, a supplied offset field equals
+it, and its wall clock agrees with every supplied field and the timestamp at the zone's offset -/
+theorem to_datetime_with_timezone_sound (p : Parsed) (hp : InType p) (zone : Int) (hz : OffValid zone) :
+    ∃ r, Parsed.to_datetime_with_timezone p zone = .ok r ∧
+      (∀ e, r = .error e → e = .notEnough ∨ e = .impossible ∨ e = .outOfRange) ∧
+      (∀ z, r = .ok z → ZonedOk p z zone) :=
+  to_datetime_tz_spec p hp zone hz
+
+/-- non-vacuity: 2024-02-29T12:00 at +01:00 (UTC reading 11:00), a contradicting zone, a missing
+offset, an offset of a full day -/
+example :
+    Parsed.to_datetime {
+      year := some 2024, ordinal := some 60, hour_div_12 := some 1, hour_mod_12 := some 0,
+      minute := some 0, offset := some 3600 } = .ok (.ok ⟨⟨dateOfYo 2024 60, ⟨39600, 0⟩⟩, 3600⟩) ∧
+    Parsed.to_datetime_with_timezone {
+      year := some 2024, ordinal := some 60, hour_div_12 := some 1, hour_mod_12 := some 0,
+      minute := some 0, offset := some 3600 } 0 = .ok (.error .impossible) ∧
+    Parsed.to_datetime {
+      year := some 2024, ordinal := some 60, hour_div_12 := some 1, hour_mod_12 := some 0,
+      minute := some 0 } = .ok (.error .notEnough) ∧
+    Parsed.to_datetime {
+      year := some 2024, ordinal := some 60, hour_div_12 := some 1, hour_mod_12 := some 0,
+      minute := some 0, offset := some 86400 } = .ok (.error .outOfRange) := by
+  decide +kernel
+
+/-- no resolver panics: for every record of in-type field values, every `i32` offset argument and
+every fixed-offset zone, each of the six resolvers returns a value or an error kind
+(`to_naive_time` and `to_fixed_offset` are `ParseResult`-valued in the model: they contain no
+operation that could panic) -/
+theorem no_panic (p : Parsed) (hp : InType p) (off zone : Int)
+    (hoff : -2147483648 ≤ off ∧ off ≤ 2147483647) (hz : OffValid zone) :
+    (∃ r, Parsed.to_naive_date p = .ok r) ∧
+    (∃ r, (.ok (Parsed.to_naive_time p) : Parsed.RP Time) = .ok r) ∧
+    (∃ r, Parsed.to_naive_datetime_with_offset p off = .ok r) ∧
+    (∃ r, (.ok (Parsed.to_fixed_offset p) : Parsed.RP Int) = .ok r) ∧
+    (∃ r, Parsed.to_datetime p = .ok r) ∧
+    (∃ r, Parsed.to_datetime_with_timezone p zone = .ok r) := by
+  obtain ⟨r1, h1, _⟩ := date_main p hp
+  obtain ⟨r3, h3, _⟩ := dt_main p hp off hoff
+  obtain ⟨r5, h5, _⟩ := to_datetime_spec p hp
+  obtain ⟨r6, h6, _⟩ := to_datetime_tz_spec p hp zone hz
+  exact ⟨⟨r1, h1⟩, ⟨_, rfl⟩, ⟨r3, h3⟩, ⟨_, rfl⟩, ⟨r5, h5⟩, ⟨r6, h6⟩⟩
 
 end Chrono.Props.C14
